@@ -12,7 +12,7 @@ import re
 from typing import Dict, List, Optional, Tuple
 
 from ..defuse import assignments, call_arg, is_reassigned
-from ..model import AnalysisError, Func, Program, norm, short, walk_own, walk_body, pipeline_calls
+from ..model import AnalysisError, Func, Program, norm, short, walk_own, walk_body, pipeline_calls, parent
 from ..pathcond import plain, And, Lit, Not, Or, PathAnalysis, entails, show, show_text
 from ..report import Result
 
@@ -287,12 +287,85 @@ def check(prog: Program, tier: str) -> Result:
             _write_obligation(res, prog, st, fn, pa, site, written)
     res.floors["R3.2"] = 2
     res.floors["R3.8"] = 2
+    res.floors["R3.9"] = 1
     _r3_5(prog, res)
     _r3_6(prog, res, st)
     _r3_7(prog, res)
+    _r3_9(prog, res)
     res.analysed.update({"anchor_functions": [f.fq for f in anchors], "pipeline_stages": len(pipeline_fns),
                          "safe_text_summaries": {f"{k[0]}.{k[1]}": v for k, v in sorted(st.summary.items())}})
     return res
+
+
+def _re_can_match_newline(seq) -> bool:
+    for op, av in seq:
+        name = str(op)
+        if name == "LITERAL" and chr(av) == "\n":
+            return True
+        if name == "NOT_LITERAL" and chr(av) != "\n":
+            return True
+        if name == "ANY":
+            continue         # `.` does not match a newline without DOTALL
+        if name == "IN":
+            neg = any(str(o2) == "NEGATE" for o2, _a in av)
+            members = [(str(o2), a2) for o2, a2 in av if str(o2) != "NEGATE"]
+            hits = any((o2 == "CATEGORY" and str(a2) in ("CATEGORY_SPACE", "CATEGORY_NOT_WORD", "CATEGORY_NOT_DIGIT")) or (o2 == "LITERAL" and chr(a2) == "\n") for o2, a2 in members)
+            if hits != neg:
+                return True
+        if name in ("MAX_REPEAT", "MIN_REPEAT") and _re_can_match_newline(av[2]):
+            return True
+        if name == "SUBPATTERN" and _re_can_match_newline(av[3]):
+            return True
+        if name == "BRANCH" and any(_re_can_match_newline(b) for b in av[1]):
+            return True
+    return False
+
+
+def _r3_9(prog: Program, res: Result) -> None:
+    """A range of characters to delete is sometimes WIDENED by what a regex matches right behind (or before) it: the `;` and
+    the blanks around it after a removed statement.  The widening must stay on the line: if the pattern can consume a line
+    break it also eats the indentation of the next line (`\\s*` does), the following statement is glued to the wrong column -
+    or into the block before it.  Instance: every regex applied to a tail / head slice of the text (`text[pos:]`, `text[:pos]`)
+    whose match length is then added to / subtracted from a position; obligation: the pattern cannot match a newline
+    (decided on the regex AST)."""
+    import re._parser as sre
+    n = 0
+    for fn in prog.funcs.values():
+        for c in walk_own(fn.node):
+            if not (isinstance(c, ast.Call) and (prog.dotted(c.func) or "") in ("re.findall", "re.match", "re.search", "re.finditer") and len(c.args) >= 2):
+                continue
+            text = c.args[1]
+            if not (isinstance(text, ast.Subscript) and isinstance(text.slice, ast.Slice) and (text.slice.lower is None) != (text.slice.upper is None)):
+                continue
+            st = c
+            while st is not None and not isinstance(st, ast.stmt):
+                st = parent(st)
+            if not (isinstance(st, ast.Assign) and isinstance(st.targets[0], ast.Name)):
+                continue
+            var = st.targets[0].id
+            pos = text.slice.lower if text.slice.lower is not None else text.slice.upper
+            pos_names = {x.id for x in ast.walk(pos) if isinstance(x, ast.Name)}
+            # the match length moves the position: pos += len(var[0]) / pos -= len(..)
+            moves = [a for a in walk_own(fn.node) if isinstance(a, ast.AugAssign) and isinstance(a.target, ast.Name) and a.target.id in pos_names
+                     and isinstance(a.op, (ast.Add, ast.Sub)) and var in {x.id for x in ast.walk(a.value) if isinstance(x, ast.Name)} and "len(" in norm(a.value)]
+            if not moves:
+                continue
+            ptxt = _regex_of(prog, fn, c.args[0])
+            if ptxt is None:
+                res.undecided("R3.9", fn.loc(c), fn.fq, short(c, 80), "pattern is not a constant")
+                continue
+            n += 1
+            try:
+                bad = _re_can_match_newline(list(sre.parse(ptxt)))
+            except Exception as error:
+                res.undecided("R3.9", fn.loc(c), fn.fq, short(c, 80), f"pattern does not parse: {error}")
+                continue
+            res.decide(not bad, "R3.9", fn.loc(c), fn.fq, short(c, 80),
+                       "the widening cannot cross a line break" if not bad else
+                       f"the pattern {ptxt!r} can match a line break: after `x = 1;` at the end of a line the widened range takes the newline and the indentation of the NEXT line, "
+                       "so the following statement continues the previous line's block (or the result no longer parses)")
+    if n == 0:
+        res.ok("R3.9", "pyrefact/", "package", "regex-widened deletion ranges", "none", trivial=True)
 
 
 def _regex_of(prog: Program, fn: Func, e: ast.AST, depth: int = 0) -> Optional[str]:
@@ -881,6 +954,8 @@ def _sub_summary(prog: Program, st: SafeText) -> str:
 from ..selftest import Variant  # noqa: E402
 
 VARIANTS = [
+    Variant("semicolon-purge-crosses-line-breaks", "FIRE", "processing", "        semicolon_anti_delimiters = re.findall(r\"^[ \\t]*;[ \\t]*\", source[end:])", "        semicolon_anti_delimiters = re.findall(r\"^\\s*;\\s*\", source[end:])", "R3.9"),
+    Variant("semicolon-purge-with-a-negated-class", "SILENT", "processing", "        semicolon_anti_delimiters = re.findall(r\"^[ \\t]*;[ \\t]*\", source[end:])", "        semicolon_anti_delimiters = re.findall(r\"^[^\\S\\n]*;[^\\S\\n]*\", source[end:])"),
     Variant("blank-line-patterns-precompiled", "SILENT", "fixes",
             "    source = re.sub(r\"(\\n\\s*){3,}\\n\", \"\\n\" * 3, source)\n", "    source = _MANY_BREAKS.sub(\"\\n\" * 3, source)\n",
             extra=[("fixes", "def fix_too_many_blank_lines(source: str) -> str:", "_MANY_BREAKS = re.compile(r\"(\\n\\s*){3,}\\n\")\n\n\ndef fix_too_many_blank_lines(source: str) -> str:")]),
